@@ -22,6 +22,8 @@ PID = 'C03'
 def run(ctx):
     quick = ctx.tier == 'quick'
     rng = random.Random(ctx.seed + 3)
+    ctx.assumptions += ['floats are compared to 1e-9: a correlation of 1.0000000000000002 (rounding of the normalised dot '
+                        'product) counts as inside [-1,1]']
     ctx.cov['rule'] = (
         'every record (cell x level) of every real run is one evaluation of the contract; runs come '
         'from a generator that forces iteration count 1, zero runners-up, more runners-up than '
